@@ -159,6 +159,22 @@ func textExec(tk []string) string {
 			return "err"
 		}
 		return fmt.Sprintf("ok %d", int(m))
+	case "xffflagbits":
+		// the -x-files-factor flag given the shortest decimal of a float32
+		xb, err := strconv.ParseUint(tk[1], 16, 32)
+		if err != nil {
+			return "bad-op"
+		}
+		str := strconv.FormatFloat(float64(math.Float32frombits(uint32(xb))), 'g', -1, 32)
+		fs := flagSet()
+		if err := fs.Lookup("x-files-factor").Value.Set(str); err != nil {
+			return "err"
+		}
+		f, err := strconv.ParseFloat(fs.Lookup("x-files-factor").Value.String(), 32)
+		if err != nil {
+			return "err"
+		}
+		return fmt.Sprintf("ok %08x", math.Float32bits(float32(f)))
 	case "xffflag":
 		// the -x-files-factor flag: accepted iff Set succeeds; prints the float32 bits
 		s, ok := arg()
